@@ -94,6 +94,16 @@ func main() {
 		}
 		for i := 0; i < n; i++ {
 			mccS, mnc := digits(r, 3), digits(r, 2+r.Intn(2))
+			switch i { // a three-digit MNC ending in 0 followed by the two-digit MNC of the same leading digits: the filler nibble must reappear
+			case 0:
+				mccS, mnc = "001", "010"
+			case 1:
+				mccS, mnc = "001", "01"
+			case 2:
+				mccS, mnc = "999", "999"
+			case 3:
+				mccS, mnc = "000", "00"
+			}
 			imsi := mccS + mnc + digits(r, 1+r.Intn(10))
 			var setup, iue []byte
 			p := ev.Catch(func() {
